@@ -47,8 +47,21 @@ def rigid_body_state(rng, unit=None, big=False):
     P, cls = random_quaternion(rng, unit)
     q = np.concatenate([r, P])
     u = rng.normal(size=6) * (loguniform(rng, 1e-2, 1e2) if rng.random() < 0.5 else 1.0)
-    if rng.random() < 0.1:
+    r_ = rng.random()
+    if r_ < 0.1:
         u[:] = 0.0
+    elif r_ < 0.25:
+        # rotation about one body axis / in a body-fixed plane, pure translation, motion along one axis: components that are
+        # exactly zero without the whole vector being zero
+        k_ = int(rng.integers(4))
+        if k_ == 0:
+            z = int(rng.integers(3)); u[3:] = np.where(np.arange(3) == z, u[3 + z], 0.0)
+        elif k_ == 1:
+            u[3 + int(rng.integers(3))] = 0.0
+        elif k_ == 2:
+            u[3:] = 0.0
+        else:
+            u[int(rng.integers(3))] = 0.0
     u_dot = rng.normal(size=6) * loguniform(rng, 1e-2, 1e2)
     return q, u, u_dot, cls
 
